@@ -26,7 +26,7 @@ def generate(rng, tier):
         out.append(("%s-%d" % (nm, w), s))
     # valid PE modules (programs of C03's generator), every instruction boundary, boundary-value registers
     import petruth
-    from fhgen import Script, hx, BOUNDARY, module_pe
+    from fhgen import Script, hx, BOUNDARY, module_pe, M64
     for w in range(4 if tier == "quick" else 60):
         s = Script("x86", "may" if w % 2 == 0 else "must")
         prog = petruth.make_program(rng, 6)
@@ -45,6 +45,17 @@ def generate(rng, tier):
             regs = [rng.choice([rng.choice(BOUNDARY), lo + 8 * rng.below(0x100), rng.u64()]) for _ in range(16)]
             s.add("unwind U C %s %s %s %s" % (mode, hx(addr), petruth.script_regs(addr, regs), rng.choice(["S", "S", "E"])),
                   tag="pe:%s:%s:%s" % (f.shape, phase, mode))
+        # every prolog / epilog instruction with all registers at the top of the address space (each of them is the
+        # base of some addition there: rsp + 8, rsp + alloc, frame register + displacement)
+        for f, (kreg, off, phase, idx) in pts:
+            if phase not in ("epilog", "prolog") and not (tier != "quick" and rng.chance(1, 4)):
+                continue
+            rva = f.regions[kreg].begin + off
+            for v in (M64, M64 - 8, M64 - 0x40, M64 - 0x1000, (1 << 63) - 8):
+                for mode in ("ip", "ra"):
+                    addr = base + rva + (1 if mode == "ra" else 0)
+                    s.add("unwind U C %s %s %s %s" % (mode, hx(addr), petruth.script_regs(addr, [v] * 16), "E" if v != M64 - 0x1000 else "S"),
+                          tag="pe-top:%s:%s:%s" % (f.shape, phase, mode))
         out.append(("pe-valid-%d" % w, s))
     # valid Mach-O modules (programs of C02's generator), every instruction boundary, boundary-value registers
     import machotruth as mt
